@@ -398,6 +398,18 @@ def _search(P, T):
     return bool(T.contains(P)), P.count_occurrences_in(T)
 
 
+def _images(obj, canon):
+    """The eight images of obj by the designated implementation operations; an exception is kept
+    in place of the image (the operation itself is judged by perm_ops / mesh_ops)."""
+    out = []
+    for s in SYMS:
+        try:
+            out.append(call_seq(obj, canon[s]))
+        except Exception as exc:  # noqa
+            out.append(exc)
+    return out
+
+
 def case_equiv(part, case):
     """case = {"patt": p, "text": t, "sym": s}"""
     lib = _lib()
@@ -433,7 +445,33 @@ def _loop_failed(part, sub, case_fn, case, note):
     case_fn(part, case)
     if part.nviol == n0:
         part.violation(sub + "_state", case, {"note": "differs inside the enumeration, agrees when "
-                                              "re-run alone", "seen": note})
+                                              "re-run alone", "seen": repr(note)})
+
+
+CONTAINS_MAXN = 4
+
+
+def _equiv_pair(part, sub, case_fn, pcase, t, imgs, timgs):
+    """One (pattern, text): the number of occurrences must be the same for the eight images, and
+    (texts up to length CONTAINS_MAXN) so must the answer of `contains`; a replayed single case
+    always compares both.  Returns the number of occurrences in the unmoved pair."""
+    base = None
+    both = len(t) <= CONTAINS_MAXN
+    for si in range(8):
+        P, T = imgs[si], timgs[si]
+        if isinstance(P, Exception) or isinstance(T, Exception):
+            _loop_failed(part, sub, case_fn, {"patt": pcase, "text": t, "sym": SYMS[si]}, "no image")
+            continue
+        try:
+            got = (bool(T.contains(P)) if both else None, P.count_occurrences_in(T))
+        except Exception as exc:  # noqa
+            _loop_failed(part, sub, case_fn, {"patt": pcase, "text": t, "sym": SYMS[si]}, exc)
+            continue
+        if si == 0:
+            base = got
+        elif base is not None and got != base:
+            _loop_failed(part, sub, case_fn, {"patt": pcase, "text": t, "sym": SYMS[si]}, [base, got])
+    return None if base is None else base[1]
 
 
 def shard_equiv(shard):
@@ -441,29 +479,13 @@ def shard_equiv(shard):
     lib = _lib()
     part = Partial()
     patts = [p for k in range(0, min(maxk, n) + 1) for p in R.perms(k)]
-    pimgs = []
-    for p in patts:
-        P = lib.Perm(p)
-        pimgs.append([call_seq(P, CANON_PERM[s]) for s in SYMS])
+    pimgs = [_images(lib.Perm(p), CANON_PERM) for p in patts]
     for t in itertools.islice(itertools.permutations(range(n)), lo, hi):
-        T = lib.Perm(t)
-        try:
-            timgs = [call_seq(T, CANON_PERM[s]) for s in SYMS]
-        except Exception as exc:  # noqa
-            part.violation("equiv", {"patt": (), "text": t, "sym": "?"}, {"exception": repr(exc)})
-            continue
+        timgs = _images(lib.Perm(t), CANON_PERM)
         for p, imgs in zip(patts, pimgs):
-            try:
-                base = _search(imgs[0], timgs[0])
-                total = math.comb(n, len(p))
-                for si in range(1, 8):
-                    got = _search(imgs[si], timgs[si])
-                    if got != base:
-                        _loop_failed(part, "equiv", case_equiv,
-                                     {"patt": p, "text": t, "sym": SYMS[si]}, [base, got])
-                part.add(7, 7 if 0 < base[1] < total else 0)
-            except Exception as exc:  # noqa
-                part.violation("equiv", {"patt": p, "text": t, "sym": "?"}, {"exception": repr(exc)})
+            cnt = _equiv_pair(part, "equiv", case_equiv, p, t, imgs, timgs)
+            part.outcomes.add("classical pattern %s" % ("occurs" if cnt else "does not occur"))
+            part.add(7, 7 if (cnt is not None and 0 < cnt < math.comb(n, len(p))) else 0)
     return part
 
 
@@ -473,11 +495,7 @@ TEXTS = {}    # n -> list of (t, [8 images as Perm]) built before forking
 def _texts(n):
     lib = _lib()
     if n not in TEXTS:
-        out = []
-        for t in R.perms(n):
-            T = lib.Perm(t)
-            out.append((t, [call_seq(T, CANON_PERM[s]) for s in SYMS]))
-        TEXTS[n] = out
+        TEXTS[n] = [(t, _images(lib.Perm(t), CANON_PERM)) for t in R.perms(n)]
     return TEXTS[n]
 
 
@@ -488,30 +506,24 @@ def shard_mesh_equiv(shard):
     for spec in ALPHA[name][lo:hi]:
         try:
             M = build_mesh(spec)
-            imgs = [call_seq(M, CANON_MESH[s]) for s in SYMS]
             under = lib.Perm(spec[1])
         except Exception as exc:  # noqa
-            part.violation("mesh_equiv", {"patt": spec, "text": (), "sym": "?"}, {"exception": repr(exc)})
+            part.violation("mesh_equiv", {"patt": spec, "text": (), "sym": "id"}, {"exception": repr(exc)})
             continue
+        imgs = _images(M, CANON_MESH)
         k = len(spec[1])
         for n in range(0, maxn + 1):
             for t, timgs in _texts(n):
-                try:
-                    base = _search(imgs[0], timgs[0])
-                    for si in range(1, 8):
-                        got = _search(imgs[si], timgs[si])
-                        if got != base:
-                            _loop_failed(part, "mesh_equiv", case_mesh_equiv,
-                                         {"patt": spec, "text": t, "sym": SYMS[si]}, [base, got])
-                    # non-trivial: the shading rejects some but not all classical occurrences
-                    nt = 0
-                    if n > k:
-                        if base[1] > 0:
-                            nt = 7 if base[1] < under.count_occurrences_in(timgs[0]) else 0
-                    part.add(7, nt)
-                except Exception as exc:  # noqa
-                    part.violation("mesh_equiv", {"patt": spec, "text": t, "sym": "?"},
-                                   {"exception": repr(exc)})
+                cnt = _equiv_pair(part, "mesh_equiv", case_mesh_equiv, spec, t, imgs, timgs)
+                part.outcomes.add("mesh pattern %s" % ("occurs" if cnt else "does not occur"))
+                # non-trivial: the shading rejects some but not all classical occurrences
+                nt = 0
+                if cnt and n > k:
+                    try:
+                        nt = 7 if cnt < under.count_occurrences_in(timgs[0]) else 0
+                    except Exception:  # noqa
+                        nt = 0
+                part.add(7, nt)
     return part
 
 
@@ -552,6 +564,7 @@ def shard_all_syms(shard):
         part.add(1, 1 if (size is not None and size > 1) else 0)
         if size is not None:
             part.bump("orbit_size_%d" % size)
+            part.outcomes.add("%s orbit of size %d" % (base["kind"], size))
     return part
 
 
@@ -598,13 +611,12 @@ def _plain_sets(res):
     return out
 
 
-def case_sets(part, case):
+def case_sets(part, case, ref=None):
     """case = {"basis": [perms], "form": container kind}"""
     from permuta import permutils
     B = [tuple(p) for p in case["basis"]]
     form = case["form"]
-    orbit = X.orbit_sets(B)
-    lmin = X.lex_min(B)
+    orbit, lmin = ref if ref is not None else (X.orbit_sets(B), X.lex_min(B))
     bad = {}
     try:
         got = _plain_sets(permutils.all_symmetry_sets(make_form(form, B)))
@@ -636,6 +648,8 @@ def case_sets(part, case):
             if not ok:
                 bad[hname] = {"expected": exp, "got": got}
                 continue
+            if form not in ("list", "iter"):
+                continue
             # lex_min is constant on the orbit: feed the helper's own (one-shot) output
             got2 = tuple(tuple(q) for q in
                          permutils.lex_min(getattr(permutils, hname)(make_form(form, B))))
@@ -655,10 +669,12 @@ def shard_sets(shard):
     name, lo, hi, forms = shard
     part = Partial()
     for B in POOLS[name][lo:hi]:
+        ref = (X.orbit_sets(B), X.lex_min(B))
         for form in forms:
-            size = case_sets(part, {"basis": B, "form": form})
+            size = case_sets(part, {"basis": B, "form": form}, ref)
             part.add(1, 1 if (size > 1 and len(B) > 1) else 0)
         part.bump("set_orbit_size_%d" % size)
+        part.outcomes.add("set orbit of size %d" % size)
     return part
 
 
@@ -696,14 +712,15 @@ def run_cli(via, text):
     return buf.getvalue()
 
 
-def case_cli(part, case):
+def case_cli(part, case, lmin=None):
     """case = {"basis": [perms], "base": 0|1, "sep": str, "rev": bool, "via": str, "sym": name}:
     the image of the basis under `sym` is spelled and given to the command; the answer must be the
     0-based spelling of the smallest member of the orbit of the (minimal elements of the) basis."""
     B = [tuple(p) for p in case["basis"]]
     img = X.image_set(case["sym"], B)
     text = spell(img, case["base"], case["sep"], case["rev"])
-    lmin = X.lex_min(X.minimal_elements(B))
+    if lmin is None:
+        lmin = X.lex_min(X.minimal_elements(B))
     exp = "_".join(X.perm_str0(p) for p in lmin) + "\n"
     try:
         got = run_cli(case["via"], text)
@@ -721,9 +738,10 @@ def shard_cli(shard):
     part = Partial()
     for B in POOLS[name][lo:hi]:
         orbit_size = len(X.orbit_sets(B))
+        lmin = X.lex_min(X.minimal_elements(B))
         for (base, sep, rev, via) in variants:
             for s in syms:
-                case_cli(part, {"basis": B, "base": base, "sep": sep, "rev": rev, "via": via, "sym": s})
+                case_cli(part, {"basis": B, "base": base, "sep": sep, "rev": rev, "via": via, "sym": s}, lmin)
                 part.add(1, 1 if orbit_size > 1 else 0)
     return part
 
@@ -763,6 +781,9 @@ def build_alphabets(quick):
         ALPHA["mesh4-sparse"] = as_specs([(p, sh) for p in R.perms(4)
                                           for sh in X.shadings_sparse_dense(4, 2)
                                           if len(sh) <= 2])
+        ALPHA["mesh4-1cell"] = as_specs([(p, sh) for p in R.perms(4)
+                                         for sh in X.shadings_sparse_dense(4, 1)
+                                         if len(sh) <= 1])
         ALPHA["mesh3-3cells"] = as_specs([(p, frozenset(sub)) for p in R.perms(3)
                                           for sub in itertools.combinations(R.all_cells(3), 3)])
 
@@ -804,7 +825,7 @@ def run(ctx, only=None):
     build_alphabets(quick)
 
     if want("perm_ops"):
-        e0 = ctx.evals
+        e0, v0 = ctx.evals, ctx.nviol
         nfull = 7 if quick else 8
         ncore = None if quick else 9
         shards = []
@@ -818,10 +839,10 @@ def run(ctx, only=None):
         ctx.bounds["perm_ops"] = {"perms": "all of length 0..%d" % nfull,
                                   "ops": [o[0] for o in PERM_OPS],
                                   "extra": ("all of length %d with ops %s" % (ncore, [o[0] for o in PERM_OPS_CORE])) if ncore else None}
-        ctx.section("perm_ops", evaluations=ctx.evals - e0)
+        ctx.section("perm_ops", evaluations=ctx.evals - e0, violations=ctx.nviol - v0)
 
     if want("mesh_ops"):
-        e0 = ctx.evals
+        e0, v0 = ctx.evals, ctx.nviol
         shards = []
         names = ["mesh<=2", "mesh3-family", "named", "biv<=2"]
         if not quick:
@@ -835,10 +856,10 @@ def run(ctx, only=None):
         ctx.bounds["mesh_ops"] = {"patterns": {n: len(ALPHA[n]) for n in names},
                                   "ops": [o[0] for o in MESH_OPS],
                                   "extra": None if quick else "all 6*2^16 mesh patterns of length 3 with ops %s" % [o[0] for o in MESH_OPS_CORE]}
-        ctx.section("mesh_ops", evaluations=ctx.evals - e0)
+        ctx.section("mesh_ops", evaluations=ctx.evals - e0, violations=ctx.nviol - v0)
 
     if want("group"):
-        e0 = ctx.evals
+        e0, v0 = ctx.evals, ctx.nviol
         shards = []
         for n in range(0, (6 if quick else 7) + 1):
             total = math.factorial(n)
@@ -858,12 +879,13 @@ def run(ctx, only=None):
                      "MeshPatt operations on %s" % (len(ELEMS_PERM), 6 if quick else 7, len(ELEMS_MESH), gnames),
             "rot_add": "j, k in -9..9 on all perms of length <= %d and on %d small mesh patterns"
                        % (5 if quick else 6, len(ALPHA["small"]))}
-        ctx.section("group", evaluations=ctx.evals - e0)
+        ctx.section("group", evaluations=ctx.evals - e0, violations=ctx.nviol - v0)
 
     if want("equiv"):
-        e0 = ctx.evals
+        e0, v0 = ctx.evals, ctx.nviol
         plan = [(n, 4) for n in range(0, 7)] if quick else \
             [(n, 5) for n in range(0, 8)] + [(8, 3)]
+        ctx.bounds["contains_called_on_all_images_up_to_text_len"] = CONTAINS_MAXN
         shards = []
         for n, maxk in plan:
             total = math.factorial(n)
@@ -871,13 +893,13 @@ def run(ctx, only=None):
             shards += [(n, lo, min(total, lo + per), maxk) for lo in range(0, total, per)]
         ctx.pmap(shard_equiv, shards)
         ctx.bounds["equiv"] = [{"text_len": n, "max_patt_len": min(n, k), "symmetries": 7} for n, k in plan]
-        ctx.section("equiv", evaluations=ctx.evals - e0)
+        ctx.section("equiv", evaluations=ctx.evals - e0, violations=ctx.nviol - v0)
 
     if want("mesh_equiv"):
-        e0 = ctx.evals
-        plan = [("mesh<=2", 5), ("named", 5), ("biv<=2", 5), ("mesh3-family", 4)] if quick else \
-            [("mesh<=2", 6), ("named", 6), ("biv<=2", 6), ("mesh3-family", 6), ("biv3", 5),
-             ("mesh3-3cells", 5), ("mesh4-sparse", 5)]
+        e0, v0 = ctx.evals, ctx.nviol
+        plan = [("mesh<=2", 5), ("named", 5), ("biv<=2", 5), ("mesh3-family", 3)] if quick else \
+            [("mesh<=2", 6), ("named", 6), ("biv<=2", 6), ("mesh3-family", 5), ("biv3", 5),
+             ("mesh3-3cells", 4), ("mesh4-1cell", 5)]
         for _, maxn in plan:
             for n in range(0, maxn + 1):
                 _texts(n)
@@ -889,10 +911,10 @@ def run(ctx, only=None):
         ctx.bounds["mesh_equiv"] = [{"patterns": name, "count": len(ALPHA[name]),
                                      "texts": "all of length 0..%d" % maxn, "symmetries": 7}
                                     for name, maxn in plan]
-        ctx.section("mesh_equiv", evaluations=ctx.evals - e0)
+        ctx.section("mesh_equiv", evaluations=ctx.evals - e0, violations=ctx.nviol - v0)
 
     if want("all_syms"):
-        e0 = ctx.evals
+        e0, v0 = ctx.evals, ctx.nviol
         shards = []
         for n in range(0, (7 if quick else 8) + 1):
             total = math.factorial(n)
@@ -903,31 +925,35 @@ def run(ctx, only=None):
         ctx.pmap(shard_all_syms, shards)
         ctx.bounds["all_syms"] = {"perms": "all of length 0..%d" % (7 if quick else 8),
                                   "mesh": {n: len(ALPHA[n]) for n in names}}
-        ctx.section("all_syms", evaluations=ctx.evals - e0)
+        ctx.section("all_syms", evaluations=ctx.evals - e0, violations=ctx.nviol - v0)
 
     if want("sets"):
-        e0 = ctx.evals
+        e0, v0 = ctx.evals, ctx.nviol
         POOLS["sets<=3 of S<=4"] = [()] + set_pool(4, 3)
-        plan = [("sets<=3 of S<=4", FORMS if not quick else ["list", "iter", "set", "reversed"])]
+        plan = [("sets<=3 of S<=4", FORMS if not quick else ["list", "set"])]
         if quick:
             POOLS["sets<=2 of S<=4"] = [()] + set_pool(4, 2)
-            plan.append(("sets<=2 of S<=4", ["tuple", "frozenset", "generator"]))
+            plan.append(("sets<=2 of S<=4", ["tuple", "iter", "frozenset", "reversed", "generator"]))
         else:
             POOLS["sets of 4 of S<=4"] = set_pool(4, 4, 4)
-            POOLS["sets<=3 of S<=5"] = [b for b in set_pool(5, 3) if any(len(p) == 5 for p in b)]
-            POOLS["sets<=2 of S<=6"] = [b for b in set_pool(6, 2) if any(len(p) == 6 for p in b)]
-            plan += [("sets of 4 of S<=4", ["list", "iter"]), ("sets<=3 of S<=5", ["list"]),
-                     ("sets<=2 of S<=6", ["list", "set"])]
+            POOLS["sets<=2 of S<=5 with an element of length 5"] = \
+                [b for b in set_pool(5, 2) if any(len(p) == 5 for p in b)]
+            s4 = [p for n in range(0, 5) for p in R.perms(n)]
+            POOLS["{p} and {p, q}: |p| = 6, |q| <= 4"] = \
+                [(p,) for p in R.perms(6)] + [(q, p) for p in R.perms(6) for q in s4]
+            plan += [("sets of 4 of S<=4", ["list", "set"]),
+                     ("sets<=2 of S<=5 with an element of length 5", ["list", "iter"]),
+                     ("{p} and {p, q}: |p| = 6, |q| <= 4", ["list"])]
         shards = []
         for name, forms in plan:
             shards += chunked(name, len(POOLS[name]), 100 if quick else 400, forms)
         ctx.pmap(shard_sets, shards)
         ctx.bounds["sets"] = [{"sets": name, "count": len(POOLS[name]), "container kinds": forms}
                               for name, forms in plan]
-        ctx.section("sets", evaluations=ctx.evals - e0)
+        ctx.section("sets", evaluations=ctx.evals - e0, violations=ctx.nviol - v0)
 
     if want("cli"):
-        e0 = ctx.evals
+        e0, v0 = ctx.evals, ctx.nviol
         # pools without the empty permutation (it cannot be spelled) and without the empty set
         def nonempty(maxlen, maxsize):
             return [b for b in set_pool(maxlen, maxsize) if all(len(p) > 0 for p in b)]
@@ -936,19 +962,20 @@ def run(ctx, only=None):
         fewv = [(0, "_", False, "main"), (1, ", ", True, "main"), (1, ":", False, "parser"),
                 (0, " ", True, "func")]
         POOLS["cli<=2 of S1..4"] = nonempty(4, 2)
-        plan = [("cli<=2 of S1..4", fewv if quick else allv, SYMS)]
+        mainv = [v for v in allv if v[3] == "main"]
+        plan = [("cli<=2 of S1..4", fewv if quick else mainv, SYMS)]
         POOLS["cli<=3 of S1..3"] = nonempty(3, 3)
-        plan.append(("cli<=3 of S1..3", allv, ["id", "inverse", "rot90"] if quick else SYMS))
+        plan.append(("cli<=3 of S1..3", allv, ["id", "antidiagonal"] if quick else SYMS))
         if not quick:
             POOLS["cli 3 of S1..4"] = [b for b in nonempty(4, 3) if len(b) == 3]
-            plan.append(("cli 3 of S1..4", fewv, SYMS))
+            plan.append(("cli 3 of S1..4", fewv, ["id", "complement", "rot90", "antidiagonal"]))
         shards = []
         for name, variants, syms in plan:
             shards += chunked(name, len(POOLS[name]), 10 if len(variants) > 4 else 40, variants, syms)
         ctx.pmap(shard_cli, shards)
         ctx.bounds["cli"] = [{"bases": name, "count": len(POOLS[name]), "spellings": len(v),
                               "symmetric images spelled": list(sy)} for name, v, sy in plan]
-        ctx.section("cli", evaluations=ctx.evals - e0)
+        ctx.section("cli", evaluations=ctx.evals - e0, violations=ctx.nviol - v0)
 
     # a few concrete cases for the evidence file (seed chooses which)
     p = R.perms(5)[(17 + 7 * ctx.seed) % 120]
@@ -978,14 +1005,4 @@ def replay(ctx, rec):
     if sub not in CASE_FUNCS:
         raise ValueError("unknown sub-check %r" % sub)
     case = rec["case"]
-    if sub in ("equiv", "mesh_equiv", "equiv_state", "mesh_equiv_state") and case.get("sym") == "?":
-        # the exception was raised while preparing the images: try every symmetry
-        n0 = ctx.nviol
-        for s in SYMS:
-            c = dict(case)
-            c["sym"] = s
-            CASE_FUNCS[sub](ctx, c)
-            if ctx.nviol > n0:
-                break
-        return
     CASE_FUNCS[sub](ctx, case)
